@@ -110,6 +110,16 @@ def generate(rng, tier):
         actors.append({"name": "killer", "ops": [
             {"op": "sleep", "d": rng.choice([0.25, 0.5, 1, 1.5, 2, 3])},
             {"op": "cancel", "task": victim, "token": ["killer"]}]})
+    if kind == "pipe" and tp != "inf" and rng.random() < 0.15:
+        # background load: a transfer of infinite volume (with a finite limit) that occupies its
+        # share until it is cancelled - it never completes by itself
+        serial += 1
+        actors.insert(rng.randint(0, len(actors)), {"name": "bg", "ops": [
+            {"op": "transfer", "on": "P", "id": "x%d" % serial, "total": "inf",
+             "tp": rng.choice([0.5, 1, 2])}]})
+        actors.append({"name": "bgkill", "ops": [
+            {"op": "sleep", "d": rng.choice([0.5, 1, 2, 3, 5, 8])},
+            {"op": "cancel", "task": "bg", "token": ["enough"]}]})
     spec = {"kind": kind}
     if kind == "pipe":
         spec["throughput"] = tp
@@ -154,7 +164,7 @@ def fluid(throughput, jobs):
         # departures and zero-volume completions at `now`
         for job in list(active):
             start, volume, limit, depart = jobs[job]
-            if remaining[job] <= EPS * max(volume, 1):
+            if volume != INF and remaining[job] <= EPS * max(volume, 1):
                 # (observed instants are floats: a start that is "the same moment" as a
                 # completion may lie an ulp before it; what is left then is rounding, not work -
                 # it matters once limits differ by many orders of magnitude)
@@ -265,6 +275,8 @@ def _check_pipe(rec, pname, spec, bad):
     unbounded = spec["kind"] == "upipe"
     for ident, start in begun.items():
         total, limit, actor = params[ident]
+        if total == "inf":
+            total = INF
         if limit is None:
             limit = throughput
         if limit == INF or unbounded and limit is None:
@@ -281,6 +293,13 @@ def _check_pipe(rec, pname, spec, bad):
                     % (ident, float(expect), ended[ident]))
             continue
         depart = Fraction(torn[ident]) if ident in torn else None
+        if total == INF:
+            if ident in ended:
+                bad("infinite-transfer-completed", "%s: a transfer of infinite volume (limit %s) "
+                    "started %r completed at %r" % (ident, limit, start, ended[ident]))
+                depart = Fraction(ended[ident])
+            jobs[ident] = (Fraction(start), INF, limit, depart)
+            continue
         jobs[ident] = (Fraction(start), Fraction(total), limit, depart)
     if jobs:
         model = fluid(throughput, jobs)
